@@ -145,6 +145,19 @@ func (r *FileReader) SkipNext() error {
 		start := r.reader.Count()
 		payloadSizeUncompressed, payloadSizeCompressed, recordNil, err := readRecordHeaderV4(r.recordHeaderByteReader)
 		if err != nil {
+			// same as in ReadNext: blocked writes in DirectIO pad the file with zeros, which marks the actual end
+			if errors.Is(err, MagicNumberMismatchErr) {
+				remainder, err := io.ReadAll(r.reader)
+				if err != nil {
+					return fmt.Errorf("error while parsing record header seeking for file end of '%s': %w", r.file.Name(), err)
+				}
+				for _, b := range remainder {
+					if b != 0 {
+						return fmt.Errorf("error while parsing record header for zeros towards the file end of '%s': %w", r.file.Name(), MagicNumberMismatchErr)
+					}
+				}
+				return io.EOF
+			}
 			return fmt.Errorf("error while reading record header of '%s': %w", r.file.Name(), err)
 		}
 
